@@ -57,7 +57,7 @@ func recvFieldChain(v *pw.Val) []string {
 	var out []string
 	for x := v; x != nil; x = x.Src {
 		if (x.Kind == pw.KField || x.Kind == pw.KAddr) && x.Field != nil {
-			out = append([]string{x.Field.Name()}, out...)
+			out = append([]string{fname(x.Field)}, out...)
 		} else if x.Kind != pw.KField && x.Kind != pw.KAddr {
 			break
 		}
@@ -88,9 +88,9 @@ func namedTypeName(t types.Type) string {
 			t = x.Elem()
 			continue
 		case *types.Named:
-			return x.Obj().Name()
+			return canonTypeName(x.Obj())
 		case *types.Alias:
-			return x.Obj().Name()
+			return canonTypeName(x.Obj())
 		}
 		return ""
 	}
@@ -110,7 +110,7 @@ func BaseRole(ev *pw.Event) string {
 			return "DynParam:" + cv.Obj.Name()
 		}
 		if cv.Kind == pw.KField && cv.Field != nil {
-			return "DynField:" + cv.Field.Name()
+			return "DynField:" + fname(cv.Field)
 		}
 		return "Dynamic"
 	}
